@@ -198,3 +198,56 @@ func init() {
 			Opts: vrt.Options{Delay: true}, Run: s.run, Check: contextCheck})
 	}
 }
+
+// CTX-combine-during: the inputs are cancelled by threads that are already running while
+// CombineContext / ConflatedContext wire the result up.
+func combineDuring() {
+	p := mkLive("p")
+	o1 := mkLive("o1")
+	o2 := mkLive("o2")
+	mask := 1 + vrt.Choose(7, 0)
+	var wg sync.WaitGroup
+	for i, in := range []ctxIn{p, o1, o2} {
+		if mask&(1<<i) != 0 {
+			wg.Add(1)
+			go func() {
+				defer wg.Done()
+				in.cancel()
+			}()
+		}
+	}
+	var r context.Context
+	if vrt.Choose(2, 0) == 0 {
+		r = CombineContext(p.ctx, o1.ctx, o2.ctx)
+		wg.Wait()
+		awaitErr(r) // at least one input was cancelled
+	} else {
+		var cancel context.CancelFunc
+		r, cancel = ConflatedContext(p.ctx, o1.ctx, o2.ctx)
+		wg.Wait()
+		if mask == 7 {
+			awaitErr(r)
+		} else {
+			settle()
+			vrt.Log("still-live", r.Err() == nil)
+		}
+		cancel()
+		awaitErr(r)
+	}
+	vrt.Log("value", r.Value(ctxKey("who")) == "p")
+	p.cancel()
+	o1.cancel()
+	o2.cancel()
+	vrt.Log("end")
+}
+
+func mkLive(name string) ctxIn {
+	ctx, cancel := context.WithCancel(context.WithValue(context.Background(), ctxKey("who"), name))
+	return ctxIn{ctx, cancel, 0}
+}
+
+func init() {
+	vrt.Register(&vrt.Scenario{Name: "CTX-combine-during", Props: []string{"C16", "C11:race", "C12:goroutine-leak"}, Quick: 2, Thorough: 3,
+		Desc: "CombineContext / ConflatedContext constructed while concurrent threads are cancelling a subset of the (live) inputs",
+		Opts: vrt.Options{Delay: true}, Run: combineDuring, Check: contextCheck})
+}
